@@ -45,11 +45,103 @@ COMPONENTS = {"real": ["_dilation.manager/connector/connection/inbound/"
 
 
 def configs(tier):
+    # the fifth: end to end over two real wormholes (control messages travel
+    # through Boss and the mailbox server), 5..9 losses in one session
     return [{"faults": i % 4 != 0, "staged": i % 2 == 1,
-             "hw": 65536 if i == 3 else None} for i in range(4)]
+             "hw": 65536 if i == 3 else None} for i in range(4)] + \
+        [{"e2e": True}]
+
+
+class _E2EOwner:
+    def __init__(self, sim, name):
+        self.sim = sim
+        self.name = name
+        self.protocols = []
+
+    def on_sub_event(self, p, kind, data):
+        self.sim.ev("sub", self.name, kind)
+
+
+class _E2EApp:
+    """One subchannel over two real wormholes: after each of the 5..9 losses
+    of the peer connection both ends write one more chunk; in the end each
+    side has received exactly what the other wrote, once and in order."""
+
+    def __init__(self, tape):
+        self.tape = tape
+        self.opener = self.acceptor = None
+
+    def start(self, w, a, b):
+        from worlds.dilation import RecFactory
+        self.w, self.sim = w, w.sim
+        self.oa, self.ob = _E2EOwner(w.sim, "A"), _E2EOwner(w.sim, "B")
+        b.dilated.listener_for("p").listen(RecFactory(self.ob, "p",
+                                                      "acceptor"))
+        a.dilated.connector_for("p").connect(RecFactory(self.oa, "p",
+                                                        "opener"))
+        self.sim.run(3000, until=lambda: any(p.made for p in
+                                             self.oa.protocols) and
+                     any(p.made for p in self.ob.protocols), max_time=60)
+        self._write(-1)
+
+    def _ends(self):
+        pa = [p for p in self.oa.protocols if p.made]
+        pb = [p for p in self.ob.protocols if p.made]
+        return (pa[0] if pa else None, pb[0] if pb else None)
+
+    def _write(self, i):
+        for p, tag in zip(self._ends(), (b"a", b"b")):
+            if p is not None and not p.lost:
+                data = tag + b"%d;" % i + self.tape.blob(
+                    self.tape.pick((0, 10, 3000), "e2e_len"), 90 + i)
+                p.transport.write(data)
+                p.writes.append(data)
+
+    def after_loss(self, i):
+        self._write(i)
+
+    def finish(self):
+        pa, pb = self._ends()
+        if pa is None or pb is None:
+            return {"key": "C10.liveness", "clause": "each open is delivered "
+                    "to the peer", "detail": "end to end: the subchannel "
+                    "opened after the first connection never appeared "
+                    "(opener made=%s, acceptor made=%s)" %
+                    (pa is not None, pb is not None)}
+
+        def settled():
+            return b"".join(pb.data) == b"".join(pa.writes) and \
+                b"".join(pa.data) == b"".join(pb.writes)
+        self.sim.run(8000, until=settled, max_time=300)
+        for rx, tx, d in ((pb, pa, "A->B"), (pa, pb, "B->A")):
+            got, want = b"".join(rx.data), b"".join(tx.writes)
+            if got != want[:len(got)]:
+                return {"key": "C10.not_prefix", "clause": "each write is "
+                        "delivered exactly once and in order",
+                        "detail": "end to end %s: received %d bytes that are "
+                        "not a prefix of the %d written" %
+                        (d, len(got), len(want))}
+            if got != want:
+                return {"key": "C10.liveness", "clause": "writes issued "
+                        "while no connection exists, or un-acked when it was "
+                        "lost, are delivered after the next connection - no "
+                        "matter how many times the connection is replaced",
+                        "detail": "end to end %s: %d of %d bytes (%d writes) "
+                        "arrived within 8000 events / 300 s after the last "
+                        "loss" % (d, len(got), len(want), len(tx.writes))}
+        return None
 
 
 def run_one(seed, tape, opts):
+    if opts.get("e2e"):
+        from checks import c11
+        res = c11.run_e2e(seed, tape, opts, app=_E2EApp(tape))
+        v = res.get("violation")
+        if v and v["key"].startswith("C11."):
+            # the connection itself did not come back: for this property
+            # that is a write never delivered
+            v["key"] = "C10.liveness"
+        return res
     # each side may declare the subprotocols it expects (the workload only
     # uses these two names, so nothing is refused)
     exp = tuple(tape.pick((None, None, ("p1", "p2"), ["p2", "p1"]), "exp")
